@@ -74,6 +74,10 @@ def run(ctx):
     ne = ordertable.eq_table(rep, Fr)
     ng = scangap.check(rep, Fr, Fr.reach(common.cmp_entries(Fr)))
     rep.floor('digit loops advanced with next()', ng, 2)
+    from rules import limbmod
+    _Fl = Fr
+    nlm = limbmod.check(rep, _Fl, [f.name for f in _Fl.real_fns()])
+    rep.floor('functions reading big-integer limbs', nlm, 1)
     rep.floor('equality table cells', ne, 7)
     rep.trust('compare_scaled_biguints(a, b, k) decides a <=> b*10^k (its documented contract; the digit comparison itself is not decided)')
     rep.trust(common.TRUST_STD)
